@@ -146,7 +146,10 @@ func (s *scopedWalker) walkFn(path string, d fs.DirEntry, err error) error {
 	// st.logger.Printf("flags for %q: %v", name, flags)
 
 	if s.excl.matches(name) {
-		return filepath.SkipDir
+		if info.Mode().IsDir() {
+			return filepath.SkipDir
+		}
+		return nil // returning SkipDir for a file would skip its remaining siblings
 	}
 
 	s.fileList.Files = append(s.fileList.Files, file{
